@@ -15,8 +15,10 @@ import (
 	"path/filepath"
 	"reflect"
 	"runtime"
+	"strconv"
 	"strings"
 	gosync "sync"
+	"sync/atomic"
 	"time"
 	"unsafe"
 
@@ -37,13 +39,43 @@ import (
 	"verifharness/node"
 )
 
-// waitLimit is generous on purpose: running into it is a harness failure (exit 2), never a verdict.
-var waitLimit = 60 * time.Second
+// waitLimit bounds every wait on the node under test.  Whether the manager reaches the awaited point is up to the code
+// under test (a loop that gives up on a message, a handler that closes the session, an insert that never ends), so
+// running into the limit is an OBSERVATION: engine.Realf records it in the trace as a line no monitor consumes (a
+// violation with that step as its replay), the node is abandoned and the next behaviour starts on a fresh one.
+// The limit is generous (the awaited points are milliseconds away, the queue timer 500 ms); once a wait has expired in
+// this process the verdict is decided and later waits use the short limit, so that a wedged build ends quickly.
+var (
+	waitLimit      = envSeconds("VERIF_SYNC_WAIT", 30)
+	waitLimitAfter = 3 * time.Second
+	expiredWaits   int32
+)
+
+func envSeconds(name string, def int) time.Duration {
+	if v, err := strconv.Atoi(os.Getenv(name)); err == nil && v > 0 {
+		return time.Duration(v) * time.Second
+	}
+	return time.Duration(def) * time.Second
+}
+
+func limitNow() time.Duration {
+	if atomic.LoadInt32(&expiredWaits) > 0 {
+		return waitLimitAfter
+	}
+	return waitLimit
+}
+
+// expired reports a wait that ran into its limit as real-code behaviour (see waitLimit).
+func expired(f string, a ...interface{}) {
+	atomic.AddInt32(&expiredWaits, 1)
+	engine.Realf(f, a...)
+}
 
 // ev is one observed call of the manager on one of the three interfaces (or of the scripted peer).
 type ev struct {
 	kind    string // HasBlock StableBlock CurrentBlock InsertBlock.begin InsertBlock.end InsertConfirms.begin InsertConfirms.end AddTx.begin AddTx.end read write close ...
 	caller  string // function of package network that made the call, e.g. "(*ProtocolManager).rcvBlockLoop"
+	async   bool   // InsertBlock.begin: the call runs in a goroutine of its own (go pm.insertBlock), not inside one of the manager's loops
 	hash    common.Hash
 	height  uint32
 	ok      bool
@@ -96,24 +128,40 @@ func (r *rig) mark() int {
 	return len(r.evs)
 }
 
-// wait blocks until pred (evaluated under the log's lock) holds.
-func (r *rig) wait(what string, pred func(evs []ev) bool) {
-	deadline := time.Now().Add(waitLimit)
+// waitFor blocks until pred (evaluated under the log's lock) holds or the limit has passed; it says which.
+func (r *rig) waitFor(limit time.Duration, pred func(evs []ev) bool) bool {
+	deadline := time.Now().Add(limit)
 	r.mu.Lock()
 	defer r.mu.Unlock()
 	for !pred(r.evs) {
 		if time.Now().After(deadline) {
-			tail := r.evs
-			if len(tail) > 25 {
-				tail = tail[len(tail)-25:]
-			}
-			var sb strings.Builder
-			for _, e := range tail {
-				fmt.Fprintf(&sb, "\n   %s %s h=%d ok=%v code=%d %x", e.kind, e.caller, e.height, e.ok, e.code, e.hash[:4])
-			}
-			engine.Failf("sync harness: timed out after %v waiting for %s; last events:%s", waitLimit, what, sb.String())
+			return false
 		}
 		r.cond.Wait()
+	}
+	return true
+}
+
+// tail renders the last events of the log (for the message of an expired wait).
+func (r *rig) tail(k int) string {
+	r.mu.Lock()
+	defer r.mu.Unlock()
+	tail := r.evs
+	if len(tail) > k {
+		tail = tail[len(tail)-k:]
+	}
+	var sb strings.Builder
+	for _, e := range tail {
+		fmt.Fprintf(&sb, "\n   %s %s h=%d ok=%v code=%d %x", e.kind, e.caller, e.height, e.ok, e.code, e.hash[:4])
+	}
+	return sb.String()
+}
+
+// wait blocks until pred holds; the manager not getting there within the limit is recorded as its behaviour.
+func (r *rig) wait(what string, pred func(evs []ev) bool) {
+	limit := limitNow()
+	if !r.waitFor(limit, pred) {
+		expired("the node did not reach the awaited point within %v: %s; last events:%s", limit, what, r.tail(25))
 	}
 }
 
@@ -140,6 +188,33 @@ func callerName() string {
 	return name
 }
 
+// insertCaller names the function of package network that called InsertBlock and says whether that call runs in a
+// goroutine of its own: the queue timer starts `go pm.insertBlock(b)`, the receive loop calls pm.insertBlock(b) itself.
+func insertCaller() (string, bool) {
+	pcs := make([]uintptr, 8)
+	n := runtime.Callers(3, pcs)
+	frames := runtime.CallersFrames(pcs[:n])
+	var names []string
+	for {
+		f, more := frames.Next()
+		names = append(names, f.Function)
+		if !more || len(names) == 8 {
+			break
+		}
+	}
+	name := names[0]
+	if i := strings.LastIndex(name, "/network."); i >= 0 {
+		name = name[i+len("/network."):]
+	}
+	async := true
+	for _, f := range names {
+		if strings.HasSuffix(f, ".(*ProtocolManager).rcvBlockLoop") || strings.HasSuffix(f, ".(*ProtocolManager).handleMsg") {
+			async = false
+		}
+	}
+	return name, async
+}
+
 const (
 	fromRcvLoop     = "(*ProtocolManager).rcvBlockLoop"      // the synchronous path of a received block
 	fromTickPrefix  = "(*ProtocolManager).rcvBlockLoop.func" // processBlock, the timer drain callback
@@ -157,6 +232,8 @@ type chainWrap struct {
 	// that block waits on gate right after its begin event (guarded by r.mu)
 	gate     chan struct{}
 	gateHash common.Hash
+	// the marker blocks made so far (guarded by r.mu): see nut.deliverBlocks
+	markers map[common.Hash]bool
 	// InsertBlock / InsertConfirms are let through one at a time (the engine serialises them under its chainLock anyway),
 	// so that every move of the stable block - each of which the engine publishes as one event - is seen here
 	ser gosync.Mutex
@@ -213,9 +290,9 @@ func (c *chainWrap) StableBlock() *types.Block {
 	return b
 }
 func (c *chainWrap) InsertBlock(block *types.Block) error {
-	who := callerName()
+	who, async := insertCaller()
 	h := block.Hash()
-	c.r.add(ev{kind: "InsertBlock.begin", caller: who, hash: h, height: block.Height()})
+	c.r.add(ev{kind: "InsertBlock.begin", caller: who, hash: h, height: block.Height(), async: async})
 	c.r.mu.Lock()
 	g := c.gate
 	if h != c.gateHash {
@@ -240,7 +317,25 @@ func (c *chainWrap) InsertConfirms(height uint32, blockHash common.Hash, sigList
 	c.mutate(func() { c.bc.InsertConfirms(height, blockHash, sigList) })
 	c.r.add(ev{kind: "InsertConfirms.end", caller: who, hash: blockHash, height: height})
 }
-func (c *chainWrap) IsInBlackList(b *types.Block) bool { return c.bc.IsInBlackList(b) }
+func (c *chainWrap) setMarker(h common.Hash) {
+	c.r.mu.Lock()
+	if c.markers == nil {
+		c.markers = map[common.Hash]bool{}
+	}
+	c.markers[h] = true
+	c.r.mu.Unlock()
+}
+func (c *chainWrap) IsInBlackList(b *types.Block) bool {
+	h := b.Hash()
+	c.r.mu.Lock()
+	isMarker := c.markers[h]
+	c.r.mu.Unlock()
+	if isMarker {
+		c.r.add(ev{kind: "marker", caller: callerName(), hash: h, height: b.Height()})
+		return true
+	}
+	return c.bc.IsInBlackList(b)
+}
 
 // ---------------------------------------------------------------- pool wrapper (network.TxPool)
 
@@ -393,6 +488,11 @@ func (m *mockPeer) DoHandshake(*ecdsa.PrivateKey, *p2p.NodeID) error { return ni
 func (m *mockPeer) Run() error                                       { return nil }
 func (m *mockPeer) NeedReConnect() bool                              { return false }
 func (m *mockPeer) SetStatus(s int32)                                { m.mu.Lock(); m.status = s; m.mu.Unlock() }
+func (m *mockPeer) isClosed() bool {
+	m.mu.Lock()
+	defer m.mu.Unlock()
+	return m.closed
+}
 func (m *mockPeer) Close() {
 	m.mu.Lock()
 	was := m.closed
@@ -420,7 +520,13 @@ type nut struct {
 	bcache *network.BlockCache
 	ccache *network.ConfirmCache
 
-	stopped bool
+	w        *node.World
+	tipH     uint32
+	tipHash  common.Hash
+	markers  int  // marker blocks made so far (each is unique)
+	sessions int  // scripted peer sessions opened so far
+	dropped  bool // the manager closed the scripted peer's session since the last takeDropped
+	stopped  bool
 }
 
 // newChain assembles the chain exactly like the node does (store, genesis, deputy manager, pool, chain.NewBlockChain).
@@ -495,48 +601,120 @@ func startNut(w *node.World, dir string, tipHeight uint32, tipHash common.Hash) 
 	n.bcache = (*network.BlockCache)(unexportedPtr(n.pm, "blockCache"))
 	n.ccache = (*network.ConfirmCache)(unexportedPtr(n.pm, "confirmsCache"))
 	n.pm.Start()
-	n.peer = newMockPeer(n.r, w.NodeIDs[0])
+	n.w, n.tipH, n.tipHash = w, tipHeight, tipHash
+	defer func() {
+		if r := recover(); r != nil { // the session could not be opened (recorded by the caller's caller): nobody else gets hold of this node
+			n.stop()
+			panic(r)
+		}
+	}()
+	n.attach()
+	return n
+}
+
+// attach opens a scripted peer session: protocol handshake claiming status (tip, stable = genesis), message loop started.
+func (n *nut) attach() {
+	from := n.r.mark()
+	n.sessions++
+	n.peer = newMockPeer(n.r, n.w.NodeIDs[0])
 	g := n.bc.Genesis()
 	hs := &network.ProtocolHandshake{ChainID: node.ChainID, GenesisHash: g.Hash(), NodeVersion: 1,
-		LatestStatus: network.LatestStatus{CurHeight: tipHeight, CurHash: tipHash, StaHeight: 0, StaHash: g.Hash()}}
+		LatestStatus: network.LatestStatus{CurHeight: n.tipH, CurHash: n.tipHash, StaHeight: 0, StaHash: g.Hash()}}
 	n.peer.push(p2p.ProHandshakeMsg, hs.Bytes())
 	subscribe.Send(subscribe.AddNewPeer, p2p.IPeer(n.peer))
 	// ready = our handshake was written, the peer's was read, and the message reader is blocked in its next ReadMsg
 	n.r.wait("protocol handshake and message loop start", func(evs []ev) bool {
-		return count(evs, 0, func(e ev) bool { return e.kind == "read.wait" }) >= 2 &&
-			count(evs, 0, func(e ev) bool { return e.kind == "write" && e.code == p2p.ProHandshakeMsg }) >= 1
+		return count(evs, from, func(e ev) bool { return e.kind == "read.wait" }) >= 2 &&
+			count(evs, from, func(e ev) bool { return e.kind == "write" && e.code == p2p.ProHandshakeMsg }) >= 1
 	})
-	return n
+}
+
+// waitPeer waits until pred holds - or until the manager has closed the scripted peer's session, which is part of what
+// the step did: it is noted (logged as peer_dropped by the step), a fresh session is opened for what follows, and the
+// result is false.  Whatever was queued behind the message that cost the session is gone with it.
+func (n *nut) waitPeer(what string, pred func(evs []ev) bool) bool {
+	p := n.peer
+	done := false
+	n.r.wait(what+" (or the session to be closed by the node)", func(evs []ev) bool {
+		done = pred(evs)
+		return done || p.isClosed()
+	})
+	if done {
+		return true
+	}
+	n.dropped = true
+	n.attach()
+	return false
+}
+
+func (n *nut) takeDroppedPeek() bool { return n.dropped }
+
+func (n *nut) takeDropped() bool {
+	d := n.dropped
+	n.dropped = false
+	return d
 }
 
 // stop ends the peer session through the manager's own error path (an unknown message code), stops the
-// manager's loops and the chain, and removes the data directory.
-func (n *nut) stop() {
-	// (a stop that fails half way - a harness failure - must not be tried again by the adapter's Close: the manager's Stop
-	// is not made to be called twice)
+// manager's loops and the chain, and removes the data directory.  Every wait is bounded; if the node does not get to a
+// point where it can be taken apart (its loops do not end, an insert never finishes, a stable-block event is never taken
+// off the bus) it is abandoned as it is - data directory and all - and what was missing is returned.
+func (n *nut) stop() string {
+	// (a stop that fails half way must not be tried again by the adapter's Close: the manager's Stop is not made to be
+	// called twice)
 	if n.stopped {
-		return
+		return ""
 	}
 	n.stopped = true
+	limit := limitNow()
 	if n.pm != nil {
 		// A behaviour may end while a cached block is insertable.  The manager's queue timer would hand it to the engine at
 		// any moment - also right after the manager's loops have been stopped, and then the stable-block event of that insert
 		// is taken off the bus by nobody (or by the NEXT behaviour's manager).  So let the timer do its work first; if it
 		// does not within a few periods, go on (the strict wait below then reports what is left).
 		n.softDrain(3 * time.Second)
-		n.peer.push(p2p.MsgCode(0x7f), []byte{0xc0})
-		n.r.wait("peer session closed by the manager", func(evs []ev) bool {
-			return count(evs, 0, func(e ev) bool { return e.kind == "close" }) >= 1
-		})
-		n.pm.Stop()
+		p := n.peer
+		if !p.isClosed() {
+			p.push(p2p.MsgCode(0x7f), []byte{0xc0})
+		}
+		closed := n.r.waitFor(limit, func([]ev) bool { return p.isClosed() })
+		stopped := make(chan struct{})
+		go func() { n.pm.Stop(); close(stopped) }()
+		select {
+		case <-stopped:
+		case <-time.After(limit):
+			return fmt.Sprintf("ProtocolManager.Stop did not return within %v; last events:%s", limit, n.r.tail(15))
+		}
+		if !closed {
+			return fmt.Sprintf("the manager did not close the session of a peer that sent an unknown message code within %v; last events:%s", limit, n.r.tail(15))
+		}
 		// the loops are gone, but inserts the queue timer already started (go pm.insertBlock) may still run:
 		// the database must not be closed under them
-		n.waitSettled("stop")
+		if !n.r.waitFor(limit, func(evs []ev) bool { ins, _ := settledParts(evs); return ins }) {
+			return fmt.Sprintf("inserts still running %v after the manager stopped; last events:%s", limit, n.r.tail(25))
+		}
+		// A stable-block event of an insert the queue timer started just before the harness stopped the manager (softDrain gave
+		// up, or the timer fired between the last look and Stop) is taken off the bus by nobody: the manager's loop is gone.
+		// That is the harness' doing, not the node's.  Give the chain's forwarder the moment it needs to put the event on the
+		// bus (where the stopped manager's buffered channel, or nobody, gets it) before the chain - and the forwarder with it -
+		// is stopped, so that it cannot reach the next behaviour's manager.
+		if !n.r.waitFor(300*time.Millisecond, settledIn) {
+			time.Sleep(200 * time.Millisecond)
+		}
 	}
 	n.bc.Stop()
 	close(n.r.stop)
 	n.db.Close()
 	os.RemoveAll(n.dir)
+	return ""
+}
+
+// retire stops the node of the behaviour that has ended.  `wedged` = a wait on this node has already expired (recorded as
+// that step's observation); otherwise a node that cannot be taken apart is reported now.
+func (n *nut) retire(wedged bool) {
+	if msg := n.stop(); msg != "" && !wedged {
+		expired("the node of the previous behaviour could not be stopped: %s", msg)
+	}
 }
 
 func enc(v interface{}) []byte {
@@ -548,40 +726,34 @@ func enc(v interface{}) []byte {
 }
 
 // fence queues a GetLstStatusMsg: the manager handles one peer's messages strictly one after the other, so
-// once the fence's handler has run, work() of every message queued before it has returned.
-func (n *nut) fence() {
+// once the fence's handler has run, work() of every message queued before it has returned.  false: the manager closed
+// the session instead (see waitPeer).
+func (n *nut) fence() bool {
 	from := n.r.mark()
 	n.peer.push(p2p.GetLstStatusMsg, enc(&network.GetLatestStatus{Revert: 0}))
-	n.r.wait("fence (GetLstStatusMsg handled)", func(evs []ev) bool {
+	return n.waitPeer("fence (GetLstStatusMsg handled)", func(evs []ev) bool {
 		return count(evs, from, func(e ev) bool { return e.kind == "write" && e.code == p2p.LstStatusMsg }) >= 1
 	})
 }
 
-// settled: every InsertBlock / InsertConfirms the manager decided on (HasBlock(parent)=true in the receive loop
-// or in the timer callback; HasBlock(hash)=true for a single confirm) has begun and ended, and every stable-block
-// event the engine published has been taken off the bus by the manager's stableBlockLoop (so none can leak into
-// the next behaviour's manager, and the cache clearing it triggers is at most one goroutine start away).
+// settled: every InsertBlock / InsertConfirms the manager hands to a goroutine of its own (HasBlock(parent)=true in the
+// timer callback -> go pm.insertBlock; HasBlock(hash)=true for a single confirm -> go InsertConfirms) has begun, every
+// begun one has ended, and every stable-block event the engine published has been taken off the bus by the manager's
+// stableBlockLoop (so none can leak into the next behaviour's manager, and the cache clearing it triggers is at most one
+// goroutine start away).  What the receive loop does with a received block it does itself, in whatever order it asks its
+// questions: deliverBlocks waits for the loop to be done with the message (the marker behind it), not for particular calls.
 func settledIn(evs []ev) bool {
-	expIns, begIns, endIns, expConf, goConf, begConf, endConf, stChanged, stReceived := 0, 0, 0, 0, 0, 0, 0, 0, 0
-	rcvState := 0 // the receive loop asks StableBlock(), then HasBlock(b.Hash()), then HasBlock(b.ParentHash())
+	ins, st := settledParts(evs)
+	return ins && st
+}
+
+// settledParts: (every insert the manager decided on has begun and ended, every stable-block event has been taken off the bus)
+func settledParts(evs []ev) (bool, bool) {
+	expIns, begIns, endIns, goIns, expConf, goConf, begConf, endConf, stChanged, stReceived := 0, 0, 0, 0, 0, 0, 0, 0, 0, 0
 	for _, e := range evs {
 		switch e.kind {
-		case "StableBlock":
-			if e.caller == fromRcvLoop {
-				rcvState = 1
-			}
 		case "HasBlock":
 			switch {
-			case e.caller == fromRcvLoop && rcvState == 1:
-				rcvState = 2
-				if e.ok {
-					rcvState = 0
-				}
-			case e.caller == fromRcvLoop && rcvState == 2:
-				rcvState = 0
-				if e.ok {
-					expIns++
-				}
 			case strings.HasPrefix(e.caller, fromTickPrefix):
 				if e.ok {
 					expIns++
@@ -593,6 +765,9 @@ func settledIn(evs []ev) bool {
 			}
 		case "InsertBlock.begin":
 			begIns++
+			if e.async {
+				goIns++
+			}
 		case "InsertBlock.end":
 			endIns++
 		case "InsertConfirms.begin":
@@ -608,7 +783,7 @@ func settledIn(evs []ev) bool {
 			stReceived++
 		}
 	}
-	return begIns == endIns && begConf == endConf && begIns >= expIns && goConf >= expConf && stReceived >= stChanged
+	return begIns == endIns && begConf == endConf && goIns >= expIns && goConf >= expConf, stReceived >= stChanged
 }
 
 // txHandlerGoroutines counts the goroutines the transaction handler started (and has not finished yet): whatever
@@ -635,13 +810,14 @@ func txHandlerGoroutines() int {
 // waitTxHandlers waits until every goroutine the transaction handler started has ended - or, with the AddTx gate
 // closed, until each of them has either ended or is parked inside AddTx.
 func (n *nut) waitTxHandlers(what string) {
-	deadline := time.Now().Add(waitLimit)
+	limit := limitNow()
+	deadline := time.Now().Add(limit)
 	for {
 		if n.pw.quiet(txHandlerGoroutines()) {
 			return
 		}
 		if time.Now().After(deadline) {
-			engine.Failf("sync harness: %d goroutines of the transaction handler still running %v after %s (%d parked in AddTx)", txHandlerGoroutines(), waitLimit, what, n.pw.parkedNow())
+			expired("%d goroutines of the transaction handler still running %v after %s (%d parked in AddTx)", txHandlerGoroutines(), limit, what, n.pw.parkedNow())
 		}
 		time.Sleep(200 * time.Microsecond)
 	}
@@ -681,7 +857,8 @@ func (n *nut) cachedBlocks() []*types.Block {
 // waitStableCleared: after the stable block moved, the manager clears both caches up to its height in a
 // goroutine behind three asynchronous hops; wait until that has visibly happened.
 func (n *nut) waitStableCleared(stable uint32) {
-	deadline := time.Now().Add(waitLimit)
+	limit := limitNow()
+	deadline := time.Now().Add(limit)
 	for {
 		ok := true
 		if fh := n.bcache.FirstHeight(); fh != 0 && fh <= stable {
@@ -696,8 +873,8 @@ func (n *nut) waitStableCleared(stable uint32) {
 			return
 		}
 		if time.Now().After(deadline) {
-			engine.Failf("sync harness: caches still hold entries at or below the stable height %d after %v: slots %v, confirms %v",
-				stable, waitLimit, dumpBlockCache(n.bcache), dumpConfirmCache(n.ccache))
+			expired("the caches still hold entries at or below the stable height %d, %v after it became stable: slots %v, confirms %v",
+				stable, limit, dumpBlockCache(n.bcache), dumpConfirmCache(n.ccache))
 		}
 		time.Sleep(time.Millisecond)
 	}
